@@ -21,8 +21,6 @@ use std::io::Write;
 use std::path::{Path, PathBuf};
 
 const MARKER: &[u8] = b"-//JACOCO//DTD";
-const F_XML_SHORT: &str = "C17-xml-short-ignored";
-const F_XML_UTF8: &str = "C17-xml-nonutf8-prefix-ignored";
 const F_GCNO_LAST: &str = "C17-gcno-same-stem-last-wins";
 
 // ---------------------------------------------------------------------------------------------
@@ -31,9 +29,7 @@ const F_GCNO_LAST: &str = "C17-gcno-same-stem-last-wins";
 #[derive(Clone, Copy, Debug, PartialEq, Eq)]
 enum Intent {
     Info,       // .info starting with TN: or SF:
-    Xml,        // .xml, >= 256 bytes, marker inside the first 256 bytes, that prefix valid UTF-8
-    XmlShort,   // .xml with the marker but shorter than 256 bytes
-    XmlBadUtf8, // .xml >= 256 bytes, marker inside the first 256 bytes, prefix not valid UTF-8
+    Xml,        // .xml with the marker inside its first 256 bytes (any length, any encoding)
     Gcno,
     Gcda,
     Profraw,
@@ -46,8 +42,6 @@ fn intent_name(i: Intent) -> &'static str {
     match i {
         Intent::Info => "info",
         Intent::Xml => "xml",
-        Intent::XmlShort => "xml-short",
-        Intent::XmlBadUtf8 => "xml-badutf8",
         Intent::Gcno => "gcno",
         Intent::Gcda => "gcda",
         Intent::Profraw => "profraw",
@@ -60,8 +54,8 @@ fn intent_of(s: &str) -> Intent {
     match s {
         "info" => Intent::Info,
         "xml" => Intent::Xml,
-        "xml-short" => Intent::XmlShort,
-        "xml-badutf8" => Intent::XmlBadUtf8,
+        // replay files written before fix 82d1c8b (short / non-UTF-8-prefix reports are now used)
+        "xml-short" | "xml-badutf8" => Intent::Xml,
         "gcno" => Intent::Gcno,
         "gcda" => Intent::Gcda,
         "profraw" => Intent::Profraw,
@@ -441,14 +435,6 @@ fn run_layout(root: &Path, case: &Case, lay: &Layout) -> LayoutRun {
 // ---------------------------------------------------------------------------------------------
 // the property, restated on artifact multisets (independent of grcov and of the Lean model)
 
-#[derive(Clone, Copy, PartialEq, Eq)]
-struct SpecVariant {
-    /// treat a short .xml that carries the marker as ignored (what finding C17-xml-short-ignored does)
-    short_ignored: bool,
-    badutf8_ignored: bool,
-}
-const SPEC: SpecVariant = SpecVariant { short_ignored: false, badutf8_ignored: false };
-
 /// keys (stem, effective llvm flag) that have gcno artifacts with different contents
 fn inconsistent_keys(case: &Case) -> BTreeMap<(String, bool), BTreeSet<u64>> {
     let mut m: BTreeMap<(String, bool), BTreeSet<u64>> = BTreeMap::new();
@@ -461,14 +447,9 @@ fn inconsistent_keys(case: &Case) -> BTreeMap<(String, bool), BTreeSet<u64>> {
 
 /// Expected item multiset (names aside). For a key with several different gcno contents the
 /// property does not say which one counts: `choice` picks (the caller tries what the run used).
-fn expected(case: &Case, v: SpecVariant, choice: &BTreeMap<(String, bool), u64>) -> String {
+fn expected(case: &Case, choice: &BTreeMap<(String, bool), u64>) -> String {
     let mut out: Vec<String> = vec![];
-    let xml_used = |a: &Artifact| match a.intent {
-        Intent::Xml => true,
-        Intent::XmlShort => !v.short_ignored,
-        Intent::XmlBadUtf8 => !v.badutf8_ignored,
-        _ => false,
-    };
+    let xml_used = |a: &Artifact| a.intent == Intent::Xml;
     let mut usable = false;
     for a in &case.arts {
         if a.intent == Intent::Info {
@@ -572,31 +553,8 @@ fn oracles(case: &Case, runs: &[LayoutRun]) -> Option<OracleFail> {
     // (1) exactness, per layout
     for &i in &ok_layouts {
         let r = &runs[i];
-        let want = expected(case, SPEC, &choice_from(case, &r.obs));
+        let want = expected(case, &choice_from(case, &r.obs));
         if r.obs != want {
-            // named matchers: the ONLY difference is the absence of the xml items the finding is about
-            let has = |t: Intent| case.arts.iter().any(|a| a.intent == t);
-            for (v, id, needs) in [
-                (SpecVariant { short_ignored: true, badutf8_ignored: false }, F_XML_SHORT, has(Intent::XmlShort)),
-                (SpecVariant { short_ignored: false, badutf8_ignored: true }, F_XML_UTF8, has(Intent::XmlBadUtf8)),
-                (
-                    SpecVariant { short_ignored: true, badutf8_ignored: true },
-                    F_XML_SHORT,
-                    has(Intent::XmlShort) && has(Intent::XmlBadUtf8),
-                ),
-            ] {
-                if needs && r.obs == expected(case, v, &choice_from(case, &r.obs)) {
-                    return Some(OracleFail {
-                        finding: Some(id), class: "exact",
-                        what: format!(
-                            "exactness: layout {} delivers [{}], every artifact exactly once means [{}]; the \
-                             difference is exactly the JaCoCo report(s) that is_jacoco (producer.rs:122) rejects \
-                             because read_exact(256)/from_utf8 fails on them",
-                            i, r.obs, want
-                        ),
-                    });
-                }
-            }
             return Some(OracleFail {
                 finding: None, class: "exact",
                 what: format!("exactness: layout {} delivers [{}], the artifact multiset means [{}]", i, r.obs, want),
@@ -732,9 +690,7 @@ fn gen_cli_case(rng: &mut Rng, cfg: &GenCfg) -> Case {
     for inp in corrlib::pipe::gen_inputs(rng, k) {
         let is_xml = inp.format == "JacocoXml";
         if is_xml
-            && !(inp.bytes.len() >= 256
-                && std::str::from_utf8(&inp.bytes[..256]).is_ok()
-                && inp.bytes[..256].windows(MARKER.len()).any(|w| w == MARKER))
+            && !inp.bytes[..inp.bytes.len().min(256)].windows(MARKER.len()).any(|w| w == MARKER)
         {
             continue;
         }
@@ -850,7 +806,7 @@ fn process(rep: &mut Report, pend: &mut Vec<Pending>, case: Case, idx: u64, stre
         rep.count(&format!("{}.outcome.{}", stream, k));
     }
     let canonical = format!("{} {}", opts_tokens(&case), e.runs.iter().map(|r| r.req_args.clone()).collect::<Vec<_>>().join(" // "));
-    let usable = expected(&case, SPEC, &BTreeMap::new()) != "panic no-input";
+    let usable = expected(&case, &BTreeMap::new()) != "panic no-input";
     let distinct_layouts = e.runs.len() >= 2 && e.runs[0].req_args != e.runs[1].req_args;
     rep.case(&canonical, usable && distinct_layouts);
     if idx % 97 == 11 {
@@ -910,11 +866,7 @@ fn tie(rep: &mut Report, pend: &[Pending], tag: &str) {
             // the Lean closed form against the Rust oracle's closed form (only where the latter is defined
             // without a choice and the layout is inside the property's domain)
             if !has_bad_arg(&p.case, &p.case.layouts[li]) {
-                let want = expected(
-                    &p.case,
-                    SpecVariant { short_ignored: true, badutf8_ignored: true },
-                    &choice_from(&p.case, &r.obs),
-                );
+                let want = expected(&p.case, &choice_from(&p.case, &r.obs));
                 if spec_ans.trim_end() != want.trim_end() {
                     diffs.push(format!("closed form: Lean [{}] Rust oracle [{}]", spec_ans, want));
                 }
@@ -1053,9 +1005,11 @@ fn xml_body(rng: &mut Rng, min_len: usize, head: String) -> Vec<u8> {
     s.into_bytes()
 }
 
-/// a JaCoCo report the sniffing accepts: >= 256 bytes, marker inside the first 256, prefix valid UTF-8
+/// a JaCoCo report: the marker inside the first 256 bytes; any length (also < 256), any encoding
 fn gen_xml(rng: &mut Rng) -> Vec<u8> {
-    match rng.below(6) {
+    match rng.below(9) {
+        6 | 7 => gen_xml_short(rng),
+        8 => gen_xml_badutf8(rng),
         0 => {
             // marker ends exactly at byte 256
             let pad = 256 - (XML_DECL.len() + "<!---->".len() + "<!DOCTYPE report PUBLIC \"".len() + MARKER.len());
@@ -1314,10 +1268,8 @@ fn gen_case(rng: &mut Rng, pools: &Pools, cfg: &GenCfg, rep: &mut Report) -> Cas
     let llvm = rng.chance(1, 3);
     let mut arts = gen_artifacts(rng, pools, llvm, rep);
     if cfg.findings {
-        match rng.below(3) {
-            0 => arts.push(Artifact { rel: format!("{}short.xml", rng.pick(DIRS)), content: gen_xml_short(rng), intent: Intent::XmlShort }),
-            1 => arts.push(Artifact { rel: format!("{}latin.xml", rng.pick(DIRS)), content: gen_xml_badutf8(rng), intent: Intent::XmlBadUtf8 }),
-            _ => {
+        {
+            {
                 // two different gcno files with the same relative name (+ a gcda so that the choice is visible
                 // even when orphans are ignored)
                 let s = *rng.pick(STEMS);
@@ -1358,14 +1310,15 @@ fn witnesses() -> Vec<(&'static str, Case)> {
     let short = format!("{}{}<report name=\"x\"/>", XML_DECL, DOCTYPE).into_bytes();
     let info = b"TN:t\nSF:a.c\nDA:1,1\nend_of_record\n";
     let mut v = vec![];
-    // a complete JaCoCo report of 150 bytes, alone and beside an .info
+    // corpus (ignored before fix 82d1c8b, must now be USED): a complete JaCoCo report of 150 bytes, alone
+    // and beside an .info; a report whose first 256 bytes are not valid UTF-8
     v.push((
         "xml-short-alone",
         Case {
             ignore_orphan: false,
             llvm: false,
             cli: false,
-            arts: vec![art("jacoco.xml", &short, Intent::XmlShort)],
+            arts: vec![art("jacoco.xml", &short, Intent::Xml)],
             layouts: vec![
                 simple_layout(vec![CType::Dir], vec![0], vec![ArgRef::C(0)]),
                 simple_layout(vec![], vec![-1], vec![ArgRef::P(0)]),
@@ -1377,8 +1330,8 @@ fn witnesses() -> Vec<(&'static str, Case)> {
         Case {
             ignore_orphan: false,
             llvm: false,
-            cli: false,
-            arts: vec![art("jacoco.xml", &short, Intent::XmlShort), art("r.info", info, Intent::Info)],
+            cli: true,
+            arts: vec![art("jacoco.xml", &short, Intent::Xml), art("r.info", info, Intent::Info)],
             layouts: vec![
                 simple_layout(vec![CType::Dir], vec![0, 0], vec![ArgRef::C(0)]),
                 simple_layout(vec![CType::ZipDeflate], vec![0, -1], vec![ArgRef::P(1), ArgRef::C(0)]),
@@ -1391,7 +1344,7 @@ fn witnesses() -> Vec<(&'static str, Case)> {
             ignore_orphan: false,
             llvm: false,
             cli: false,
-            arts: vec![art("jacoco.xml", &gen_xml_badutf8(&mut rng), Intent::XmlBadUtf8), art("r.info", info, Intent::Info)],
+            arts: vec![art("jacoco.xml", &gen_xml_badutf8(&mut rng), Intent::Xml), art("r.info", info, Intent::Info)],
             layouts: vec![
                 simple_layout(vec![CType::Dir], vec![0, 0], vec![ArgRef::C(0)]),
                 simple_layout(vec![CType::ZipStored], vec![0, 0], vec![ArgRef::C(0)]),
@@ -1455,11 +1408,11 @@ fn witnesses() -> Vec<(&'static str, Case)> {
 pub fn run(rep: &mut Report) {
     rep.rule = "an artifact multiset (0-4 gcno stems x 0-3 gcda runs each, LLVM-stamped and GCC gcno incl. real ones from \
                 /repo/test, duplicate identical gcno, gcda without gcno, .info valid/decoy, JaCoCo .xml incl. marker ending at \
-                byte 256 / exactly 256 bytes / non-ASCII prefix and decoys (no marker, marker after or across byte 256, empty), \
+                byte 256 / exactly 256 bytes / shorter than 256 bytes / non-UTF-8 prefix and decoys (no marker, marker after or across byte 256, empty), \
                 profraw/profdata, linked-files-map.json x0-2, files with other or no extension, dotfiles) laid out twice: one \
                 dir | one zip | split over 1-4+ dirs and stored/deflated zips (nested subdirs, optional zip directory entries) | \
                 plain-file arguments where admissible, shuffled argument order, relative or absolute arguments, \
-                ignore_orphan_gcno and is_llvm random; plus a small stream with the named findings' artifacts and one with \
+                ignore_orphan_gcno and is_llvm random; plus a small stream with the one named finding's artifacts (different gcno, same name) and one with \
                 inadmissible plain arguments; non-trivial = at least one usable artifact and two different layouts; \
                 distinct = distinct (options, both abstract layouts)"
         .to_string();
